@@ -196,6 +196,17 @@ pub fn check_crash_state(run: &Run, sc: &Scenario, fr: &FaultRun, replay: &Value
                 }
             };
             run.count("stitched_listings_compared", 1);
+            // naming it as "the latest version, complete or not" selects the same version
+            if raw.bands.keys().max() == Some(&new_id) {
+                let l = cs::list(cs::local(&fr.arch), Some(cs::LATEST), "/", &[]);
+                let want: Vec<&str> = model.iter().map(|(_, e)| e.apath.as_str()).collect();
+                let got: Option<Vec<&str>> = l.value().map(|v| v.iter().map(|e| e.apath.as_str()).collect());
+                if got.as_ref() != Some(&want) {
+                    viol("latest-selection", "differs-from-the-newest-version", format!("selected as 'latest' the listing is {:?}, by id {want:?}", got.map(|g| g.len())));
+                    return false;
+                }
+                run.count("latest_selections_compared", 1);
+            }
             // the same holds for the part of the interrupted version below one directory: the
             // rule decides per path, so a subtree listing is the filtered full listing
             // (any path of this or an earlier version may be asked for, also one since deleted)
